@@ -46,6 +46,12 @@ ValOf(T) == {v \in Val(T, Tokens) : v.c \in {"dict", "defaultdict"} => Len(v.ks)
 SubclassVals(T) == IF T.k = "union" /\ \E i \in 1..Len(T.a) : T.a[i].k = "int" /\ ~\E j \in 1..Len(T.a) : T.a[j].k = "bool"
                    THEN {Atom("bT")} ELSE {}
 
+\* the same elements held by another runtime container than the minimal one: any iterable is dumped to the same outer form
+AltKinds == {"list", "tuple", "deque", "gen"}
+AltKindVals(T) == IF T.k \in IterKinds
+                  THEN {[c |-> k, xs |-> x.xs] : k \in AltKinds \ {IterImpl(T.k)}, x \in {y \in ValOf(T) : Len(y.xs) > 0}}
+                  ELSE {}
+
 Probes == {Atom(t) : t \in Tokens} \cup {[c |-> "list", xs |-> <<>>], [c |-> "list", xs |-> <<Atom("i1")>>],
                                         [c |-> "dict", ks |-> <<>>, vs |-> <<>>], [c |-> "dict", ks |-> <<Atom("s_a")>>, vs |-> <<Atom("i1")>>]}
 
@@ -57,7 +63,7 @@ PickType == /\ st = "root"
             /\ st' = "type" /\ v' = v /\ sub' = sub
 PickValue == /\ st = "type"
              /\ \/ \E x \in ValOf(T) : v' = x /\ sub' = FALSE
-                \/ \E x \in SubclassVals(T) : v' = x /\ sub' = TRUE
+                \/ \E x \in SubclassVals(T) \cup AltKindVals(T) : v' = x /\ sub' = TRUE
              /\ st' = "case" /\ T' = T
 Next == PickType \/ PickValue
 
